@@ -114,7 +114,7 @@ func retarget(o fsx.Op, v avfs.VFS) fsx.Op {
 var advPaths = []struct{ p, cl string }{
 	{"", "empty"}, {"/", "root"}, {".", "dot"}, {"..", "dotdot"}, {"//", "dslash"}, {"a", "rel"}, {"../w/a", "rel-dotdot"},
 	{"/w/a", "dir"}, {"/w/a/x", "descendant"}, {"/w/f", "file"}, {"/w/g", "alias"}, {"/w/f/under", "under-file"}, {"/w/missing", "missing"},
-	{`\w\a`, "othersep"}, {`C:\w\a`, "volume"}, {"/w/" + strings.Repeat("n", 300), "long"}, {"/w/l", "symlink"}, {"/w/loop", "loop"},
+	{`\w\a`, "othersep"}, {`C:\w\a`, "volume"}, {`D:\x`, "missing-volume"}, {`D:`, "bare-volume"}, {`\\host\share\x`, "unc"}, {"/w/" + strings.Repeat("n", 300), "long"}, {"/w/l", "symlink"}, {"/w/loop", "loop"},
 }
 
 // advPrefix builds the tree the adversarial paths refer to.
@@ -381,6 +381,32 @@ func TestCheck(t *testing.T) {
 		}
 		c.Sample("adv-"+kind, map[string]any{"fs": kind, "call": pc[(idx*7)%len(pc)].String(), "handle_call": hc[(idx*3)%len(hc)].String()})
 	}
+	// (a3) every other method of the API (misc_test.go)
+	nmisc := 0
+	for _, kind := range fsKinds {
+		v, err := build(kind, advPrefix(strings.Contains(kind, "MemFS") && !strings.HasPrefix(kind, "BasePathFS")))
+		if err != nil {
+			continue
+		}
+		for i, mc := range miscCalls(v) {
+			if i%c.NShards != c.Shard {
+				continue
+			}
+			nmisc++
+			c.Eval(1)
+			if res := runMisc(mc); res != "" {
+				verdict := "panic"
+				if !strings.HasPrefix(res, "PANIC") {
+					verdict = strings.SplitN(res, " ", 2)[0]
+				}
+				d := vt.Dev("prop", "C07", "fs", kind, "op", strings.SplitN(mc.name, "(", 2)[0], "verdict", verdict, "clause", "misc")
+				d.Detail = fmt.Sprintf("%s %s: %s", kind, mc.name, res)
+				c.Report(d, Case{Kind: "misc", FS: kind, Idm: []string{mc.name}})
+			}
+			c.NonTrivial(vt.Hash64("misc", kind, mc.name))
+		}
+	}
+	c.Extra("misc_calls", fmt.Sprintf("%d calls of lexical helpers, accessors, setters, identity helpers, Sub, Fd on %d file-system configurations (this shard)", nmisc, len(fsKinds)))
 	c.Extra("adversarial_matrix", fmt.Sprintf("%d file-system configurations x (%d path calls + %d handle states x %d handle calls)", len(fsKinds), len(pc), len(handleStates), len(hc)))
 	c.SetExhaustive(true)
 
@@ -658,6 +684,26 @@ func replay(c *vt.Ctx, cs Case) *vt.Deviation {
 		return concDev(*cs.Conc, res)
 	case "idm":
 		return idmRun(cs.Idm)
+	case "misc":
+		v, err := build(cs.FS, advPrefix(strings.Contains(cs.FS, "MemFS") && !strings.HasPrefix(cs.FS, "BasePathFS")))
+		if err != nil {
+			c.Inconclusive("replay build: " + err.Error())
+			return nil
+		}
+		for _, mc := range miscCalls(v) {
+			if len(cs.Idm) > 0 && mc.name == cs.Idm[0] {
+				if res := runMisc(mc); res != "" {
+					verdict := "panic"
+					if !strings.HasPrefix(res, "PANIC") {
+						verdict = strings.SplitN(res, " ", 2)[0]
+					}
+					d := vt.Dev("prop", "C07", "fs", cs.FS, "op", strings.SplitN(mc.name, "(", 2)[0], "verdict", verdict, "clause", "misc")
+					d.Detail = fmt.Sprintf("%s %s: %s", cs.FS, mc.name, res)
+					return d
+				}
+			}
+		}
+		return nil
 	}
 	v, err := build(cs.FS, cs.Prefix)
 	if err != nil {
